@@ -840,10 +840,12 @@ class RandomModel:
 
     def __init__(self):
         self.calls = []
+        self.picks = []
         self.counter = 0
 
     def reset(self):
         self.calls = []
+        self.picks = []
         self.counter = 0
 
     def _pick(self, n, what):
@@ -874,13 +876,18 @@ class RandomModel:
             raise ValueError("a cannot be empty unless no samples are taken")
         out = []
         remaining = list(pop)
+        positions = list(builtins_range(len(pop)))
+        chosen = []
         for _ in builtins_range(n):
             k = self._pick(len(remaining) if not replace else len(pop), "c")
             if replace:
                 out.append(pop[k])
+                chosen.append(k)
             else:
                 out.append(remaining.pop(k))
-        return NDArray(out, (n,))
+                chosen.append(positions.pop(k))
+        self.picks.append(chosen)
+        return _build(out, (n,), None)
 
     def rand(self, *shape):
         from vlib import sym
